@@ -6,7 +6,7 @@ from haiway import MISSING, State
 import json
 
 from harness.legs import cfg_text, gen_traces, leg_m, leg_mutant, leg_r, leg_t_gen
-from props.values_common import ann_to_py, is_frozen, make_class, make_generic, make_generic_subclass, py_to_val, val_to_py
+from props.values_common import ann_to_py, is_frozen, make_class, make_generic, make_generic_nested, make_generic_subclass, py_to_val, val_to_py
 
 SPEC = "Values"
 MANIFEST = dict(
@@ -42,7 +42,14 @@ def construct(ann, val, use_default, generic=False):
     """-> observation [acc, stored]"""
     try:
         pyval = val_to_py(val)
-        if generic:
+        if generic == "nested":
+            try:
+                outer, inner = make_generic_nested(ann)
+            except Exception:  # noqa: BLE001  - an annotation that cannot be a type argument: plain holder instead
+                inst = make_class(ann)(x=pyval)
+            else:
+                inst = outer(inner=inner(x=pyval)).inner
+        elif generic:
             try:
                 cls = make_generic_subclass(ann) if generic == "sub" else make_generic(ann)
             except Exception:  # noqa: BLE001  - an annotation that cannot be a type argument: plain holder instead
@@ -71,7 +78,7 @@ def construct(ann, val, use_default, generic=False):
     return dict(acc="yes", stored=term)
 
 
-FORMS = ("plain", "default", "generic", "generic-sub", "sub-default", "sub-default-bare")
+FORMS = ("plain", "default", "generic", "generic-sub", "generic-nested", "sub-default", "sub-default-bare")
 _SWAP = {"pinst": "phollow", "phollow": "pinst", "pclass": "phollow", "int": "bool", "bool": "int", "state": "state2",
          "state2": "state", "list": "tuple", "tuple": "list", "set": "fset", "fset": "set", "date": "datetime",
          "datetime": "date", "func": "cls", "cls": "func", "none": "missing", "missing": "none"}
@@ -106,7 +113,7 @@ class ValuesDriver:
             if form in ("default", "sub-default", "sub-default-bare") and val["k"] == "missing":
                 continue  # MISSING as a default means "no default"
             out[form] = construct(self.ann, val, {"default": True, "sub-default": "sub", "sub-default-bare": "sub-bare"}.get(form, False),
-                                  {"generic": True, "generic-sub": "sub"}.get(form, False))
+                                  {"generic": True, "generic-sub": "sub", "generic-nested": "nested"}.get(form, False))
         return out
 
     def apply(self, name, args):
@@ -114,7 +121,7 @@ class ValuesDriver:
         out = self._all_forms(self.val)
         # the verdict belongs to the value: after the same classes have judged the value's look-alikes (same Python class,
         # ==-equal, same shape) they judge the value itself exactly as before
-        kept = ("plain", "generic", "generic-sub")     # the forms whose classes live on between constructions
+        kept = ("plain", "generic", "generic-sub", "generic-nested")     # the forms whose classes live on between constructions
         for other in look_alikes(self.val):
             self._all_forms(other, kept)
         again = self._all_forms(self.val, kept)
